@@ -812,6 +812,9 @@ func c20RandLabels(r *rand.Rand) map[string]string {
 	for len(m) < n {
 		k := c20Keys[r.Intn(len(c20Keys))]
 		m[k] = fmt.Sprintf("v%d-%s", r.Intn(4), strings.NewReplacer("/", "_", ".", "_").Replace(k))
+		if r.Intn(10) == 0 {
+			m[k] = "" // a marker label
+		}
 	}
 	return m
 }
